@@ -138,7 +138,13 @@ def run_paths(prop, tier):
         res, events = validate(out, "Trace_XPath", {"Prop": '"%s"' % prop, "Dev": "{}"}, trace, "xptv" + prop,
                                timeout=t["timeout"])
         n_rnd = C.count_lines(rnd)
-        out.traces = len(events)
+        edited = 0
+        if prop == "C07":
+            # node-sets on documents that were EDITED through the DOM (ids no longer follow document order)
+            import dom
+            edited = dom.edited_queries(out, prop, tier, wd)
+            out.extra["query_events_on_edited_documents"] = edited
+        out.traces = len(events) + edited
         out.evaluations = stats["evaluations"] + sum(len(e.get("obs", [])) for e in events[-n_rnd:] if n_rnd)
         out.nontrivial_count = stats["nontrivial"]
         for s in stats["samples"]:
